@@ -107,6 +107,16 @@ def mutate(text: str, ext: str, faults: list[str], rng: random.Random, big: int)
             lines.insert(i, cut)
             lines.append(f"value = 1  {cm} thailint: ignore-next-line[dry.duplicate-code, improper-logging.print-stateme")
             text = "\n".join(lines)
+        elif op == "formatLiterals":
+            # valid code whose string literals look like format / template syntax, compared with the same variable the
+            # healthy siblings compare (so the literals end up in a cross-file finding's message)
+            vals = ["{", "}", "{0}"]
+            if ext in ("py", ""):
+                text += "\n\ndef classify_marks(tok):\n" + "".join(f"    if tok == \"{v}\":\n        return {i + 1}\n" for i, v in enumerate(vals)) + "    return 0\n"
+            elif ext == "rs":
+                text += "\nfn classify_marks(tok: &str) -> i32 {\n" + "".join(f"    if tok == \"{v}\" {{ return {i + 1}; }}\n" for i, v in enumerate(vals)) + "    0\n}\n"
+            else:
+                text += "\nfunction classifyMarks(tok) {\n" + "".join(f"  if (tok === \"{v}\") {{ return {i + 1}; }}\n" for i, v in enumerate(vals)) + "  return 0;\n}\n"
         elif op == "hugeHex":
             lit = "0x" + "f" * 5000
             text += {"py": f"\nLIMIT = {lit}\n\n\ndef scaled(x):\n    return x * {lit}\n",
@@ -142,14 +152,18 @@ PLAIN_TS = "let total = 0;\nlet count = 0;\nfor (const value of VALUES) {\n  if 
 PLAIN = {"g07_plain.py": "VALUES = [1, 2, 3]\n" + PLAIN_PY.replace("@", ""),
          "g08_plain.py": "VALUES = [4, 5, 6, 7]\nEXTRA = 1\n" + PLAIN_PY.replace("@", ""),
          "g09_plain.ts": "const VALUES = [1, 2, 3];\nconst THRESHOLD = 10;\n" + PLAIN_TS,
-         "g10_plain.ts": "const VALUES = [4, 5, 6, 7];\nconst THRESHOLD = 20;\nconst EXTRA = 1;\n" + PLAIN_TS}
+         "g10_plain.ts": "const VALUES = [4, 5, 6, 7];\nconst THRESHOLD = 20;\nconst EXTRA = 1;\n" + PLAIN_TS,
+         # healthy files that compare one variable with string literals (cross-file stringly-typed evidence)
+         "g11_tokens.py": "def classify_plain(tok):\n    if tok == \"begin\":\n        return 1\n    if tok == \"end\":\n        return 2\n    return 0\n",
+         "g12_tokens.ts": "export function classifyPlain(tok: string): number {\n  if (tok === \"begin\") {\n    return 1;\n  }\n"
+                          "  if (tok === \"end\") {\n    return 2;\n  }\n  return 0;\n}\n"}
 
 
-def _bag(vs, root, skip):
+def _bag(vs, root, skip, drop_rules: tuple = ()):
     out = []
     for v in vs:
         rel = drive.rel(str(v.file_path), root)
-        if rel == skip:
+        if rel == skip or v.rule_id.startswith(drop_rules or ("\0",)):
             continue
         out.append(canon([v.rule_id, rel, v.line, v.column, v.message.replace(str(root) + "/", "")]))
     return sorted(out)
@@ -170,8 +184,11 @@ def job(j: dict) -> dict:
         drive.write_tree(r, sib)
         (r / ".thailint.yaml").write_text(projects.BASE_CONFIG)
     (root / name).write_bytes(data)
+    # a VALID file that compares the siblings' variable legitimately adds cross-file stringly-typed evidence: for that
+    # fault the siblings are compared without the stringly-typed findings
+    drop = ("stringly-typed.",) if "formatLiterals" in j["faults"] else ()
     os.chdir(base_root)
-    baseline = _bag(Linter(project_root=str(base_root)).lint(str(base_root)), base_root, None)
+    baseline = _bag(Linter(project_root=str(base_root)).lint(str(base_root)), base_root, None, drop)
     os.chdir(root)
     faillog = str(Path(j["root"]) / "h1.ndjson")
     os.environ["THAILINT_VERIF_FAILLOG"] = faillog
@@ -179,7 +196,7 @@ def job(j: dict) -> dict:
     ig._CACHED_PARSER = None
     api_exc = None
     try:
-        got = _bag(Linter(project_root=str(root)).lint(str(root)), root, name)
+        got = _bag(Linter(project_root=str(root)).lint(str(root)), root, name, drop)
     except BaseException as e:  # noqa: BLE001
         api_exc = f"{type(e).__name__}: {e}"[:300]
         got = None
@@ -196,12 +213,12 @@ def job(j: dict) -> dict:
         listed_order = "first" if k == 0 else "middle"
         sibs = sibs[:k] + same[:1] + sibs[k:]
         os.chdir(base_root)
-        ref = _bag(Linter(project_root=str(base_root)).orchestrator.lint_files([base_root / x for x in sibs]), base_root, None)
+        ref = _bag(Linter(project_root=str(base_root)).orchestrator.lint_files([base_root / x for x in sibs]), base_root, None, drop)
         os.chdir(root)
         order = sibs[:k] + [name] + sibs[k:]
         ig._CACHED_PARSER = None
         try:
-            lst = _bag(Linter(project_root=str(root)).orchestrator.lint_files([root / x for x in order]), root, name)
+            lst = _bag(Linter(project_root=str(root)).orchestrator.lint_files([root / x for x in order]), root, name, drop)
             listed_same = lst == ref
         except BaseException as e:  # noqa: BLE001
             api_exc = f"{type(e).__name__}: {e}"[:300]
@@ -286,10 +303,10 @@ def run(chk) -> None:
     quick = chk.tier == "quick"
     chk.level = "fault_enumeration"
     drive.preload()
-    chk.rule = ("fault sequences (35 operations: truncation, token deletion/duplication, bracket/quote imbalance, "
+    chk.rule = ("fault sequences (36 operations: truncation, token deletion/duplication, bracket/quote imbalance, "
                 "encoding damage, nesting/length blow-up, empty/binary/unknown type) of length <= MaxFaults over "
                 "seed files of 4 languages plus an extensionless shebang script, enumerated by TLC from Robust.tla; concrete positions/bytes drawn from "
-                "VERIF_SEED; each damaged file linted among 10 healthy siblings through Linter.lint (all rules, H1 "
+                "VERIF_SEED; each damaged file linted among 12 healthy siblings through Linter.lint (all rules, H1 "
                 "tap) and 3 rotating CLI commands; non-trivial = every case (each damages a valid file); distinct "
                 "by (seed, fault sequence)")
     chk.assumptions = ["fault enumeration: TLC enumerates fault sequences, the byte-level instantiation is "
